@@ -571,8 +571,9 @@ class Parser:
                 end_col_offset=end[1] if end else values[-1].end_col_offset,
             )
 
-        if path_tok := (path_tok or self._path_token):
-            node = xonsh_call("__xonsh__.path_literal", node, **path_tok.loc())
+        if path_tok or self._path_token:
+            locs = {k: getattr(node, k) for k in ("lineno", "col_offset", "end_lineno", "end_col_offset")}
+            node = xonsh_call("__xonsh__.path_literal", node, **locs)  # spans the whole literal
             self._path_token = None
         return node
 
@@ -666,17 +667,20 @@ class Parser:
             **locs,
         )
 
-    def expand_help(self, atoms: list[tuple[ast.Name, TokenInfo]], **_: int) -> ast.Call | None:
+    def expand_help(self, atoms: list[tuple[ast.Name, TokenInfo]], **locs: int) -> ast.Call | None:
         node: ast.Call | None = None
+        start = {"lineno": locs["lineno"], "col_offset": locs["col_offset"]}
         for atom, tok in atoms:
             fn = "superhelp" if tok.is_exact_type("??") else "help"
+            span = {**start, **tok.loc_end()}  # from the first atom up to this '?'
             if node is None:
-                node = xonsh_call(f"__xonsh__.{fn}", atom, **tok.loc())
+                node = xonsh_call(f"__xonsh__.{fn}", atom, **span)
             else:
+                attr_end = {"end_lineno": atom.end_lineno, "end_col_offset": atom.end_col_offset}
                 node = xonsh_call(
                     f"__xonsh__.{fn}",
-                    ast.Attribute(value=node, attr=atom.id, ctx=Load, **tok.loc()),
-                    **tok.loc(),
+                    ast.Attribute(value=node, attr=atom.id, ctx=Load, **start, **attr_end),
+                    **span,
                 )
         return node
 
